@@ -2027,7 +2027,10 @@ func (self *Node) parseRaw(full bool) {
 		parser.noLazy = true
 		parser.loadOnce = true
 		n, e = parser.Parse()
-		self.assign(n)
+		if e == 0 {
+			// publish exactly once: readers that see a non-raw type read the node without the lock
+			self.assign(n)
+		}
 	} else {
 		*self, e = parser.Parse()
 	}
